@@ -13,6 +13,8 @@ package c15
 //	P  poller held at resolver.beforeResolve: Remove closes both watchers, then the poll runs (its update falls on closed members)
 //	U  poller held INSIDE PatternRouterWatcher.UpdateDesc (past the closed check, mutex held): Remove waits for the mutex
 //	S  poller held inside ServiceRouterWatcher.UpdateDesc: Remove closes the pattern watcher, waits for the service one
+//	M  poller held in aggregateWatcher.UpdateDesc BETWEEN its two members (the pattern watcher has applied the update):
+//	   Remove closes both watchers, then the service watcher gets the update - closed: the members end up differing
 //
 // Log tokens (one total order): b poll start, pu / su the pattern / service watcher APPLIES an update (hook behind the
 // closed check), s poll end, rc Remove called, pc / sc the pattern / service watcher's closed flag set, rr Remove
@@ -132,12 +134,15 @@ func (x *rrExec) hook(name string, args ...string) {
 	if x.abandoned.Load() || len(args) == 0 || args[0] != rrTarget {
 		return
 	}
-	tok, ok := rrTokens[name]
-	if !ok {
-		return
+	tok := rrTokens[name]
+	if tok != "" {
+		x.logf(tok)
 	}
-	x.logf(tok)
-	if h := x.holdAt.Load(); h != nil && *h == name {
+	key := name
+	if name == "aggregate.update.member" && len(args) > 1 {
+		key += "#" + args[1]
+	}
+	if h := x.holdAt.Load(); h != nil && *h == key {
 		x.holdAt.Store(nil)
 		select {
 		case x.held <- struct{}{}:
@@ -233,7 +238,8 @@ func (x *rrExec) run(f []string) string {
 		x.logf("rr")
 		close(removed)
 	}
-	holdNames := map[string]string{"P": "resolver.beforeResolve", "U": "pattern.update.afterCheck", "S": "service.update.afterCheck"}
+	holdNames := map[string]string{"P": "resolver.beforeResolve", "U": "pattern.update.afterCheck", "S": "service.update.afterCheck",
+		"M": "aggregate.update.member#1"}
 	for k, m := range masks {
 		last := k == len(masks)-1
 		srv.mask.Store(int32(m))
@@ -262,7 +268,7 @@ func (x *rrExec) run(f []string) string {
 			}
 			if parked {
 				go doRemove()
-				if closeAt == "P" {
+				if closeAt == "P" || closeAt == "M" {
 					rrWait(x.closedSc, bound) // both watchers closed; Remove now waits in resolver.Close
 				}
 				time.Sleep(3 * time.Millisecond) // let Remove run into the mutex / the done channel (any outcome is a legal interleaving)
@@ -292,7 +298,7 @@ func newRRExec() *rrExec {
 
 // genRR: built-in lines first (every close point over a last poll that does / does not owe an update), then random ones.
 func genRR(rnd interface{ Intn(int) int }, tier string, emit func(string)) {
-	for _, c := range []string{"N", "P", "U", "S"} {
+	for _, c := range []string{"N", "P", "U", "S", "M"} {
 		emit("rr m 1,3 " + c)     // last poll owes an update
 		emit("rr m 3,3 " + c)     // last poll is silent
 		emit("rr m 5 " + c)       // Remove meets the very first poll
@@ -315,6 +321,6 @@ func genRR(rnd interface{ Intn(int) int }, tier string, emit func(string)) {
 			}
 			ms[j] = strconv.Itoa(prev)
 		}
-		emit("rr m " + strings.Join(ms, ",") + " " + []string{"N", "P", "U", "S"}[rnd.Intn(4)])
+		emit("rr m " + strings.Join(ms, ",") + " " + []string{"N", "P", "U", "S", "M"}[rnd.Intn(5)])
 	}
 }
